@@ -36,7 +36,7 @@ def consts(**over):
         InCalls=[('ia1', 1), ('ia1', 2), ('ia2', 1)],
         World=None,
         InnerCall=('ia1', 2),
-        OutAliases=['oa1'], Vals=['v1', 'v2'], Excs=['E1'], Handlers=['ia2', 'oa2'],
+        OutAliases=['oa1'], Vals=['v1', 'v2'], SentVals=None, Excs=['E1'], Handlers=['ia2', 'oa2'],
         InFaults=['none'], OutFaults=['none'], Bodies=['plain'],
         OutResults=[('val', 'v1'), ('exc', 'E1')],
         Ctl=[], Ends=['ret', 'raise'],
@@ -45,6 +45,8 @@ def consts(**over):
         InOpts=[], OutOpts=[], PlayFaults=[],
         FixF1=True, FixF2=True, FixF3=True, FixF10=True)
     c.update(over)
+    if c['SentVals'] is None:
+        c['SentVals'] = list(c['Vals'])
     if c['World'] is None:
         c['World'] = {k: DEFAULT_WORLD[k] for k in c['InCalls']}
         if tuple(c['InnerCall']) not in c['World']:
@@ -63,7 +65,7 @@ def to_tla_consts(c):
         return Raw('<<' + ', '.join(mc.tla(x) for x in lst) + '>>')
     return dict(
         InCalls=incalls, World=Raw(world), InnerCall=tuple(c['InnerCall']),
-        OutAliases=set(c['OutAliases']), Vals=set(c['Vals']), Excs=set(c['Excs']), Handlers=set(c['Handlers']),
+        OutAliases=set(c['OutAliases']), Vals=set(c['Vals']), SentVals=set(c['SentVals']), Excs=set(c['Excs']), Handlers=set(c['Handlers']),
         InFaults=set(c['InFaults']), OutFaults=set(c['OutFaults']), Bodies=set(c['Bodies']),
         OutResults=set(tuple(x) for x in c['OutResults']), Ctl=set(c['Ctl']), Ends=set(c['Ends']),
         Classes=recset(c['Classes']), Draws=set(c['Draws']), Extractors=set(c['Extractors']),
@@ -130,11 +132,13 @@ def _work(task):
     the state labels of the whole graph."""
     import hashlib
     from .recbind import Driver
-    cfg_name, items, conc_seed, cassette, cats, nontrivial = task
+    cfg_name, items, conc_seed, cassette, cats, nontrivial, dopts = task
     dc = _G['dc'][cfg_name]
     graph = _G['graphs'].get(cfg_name)
     fac, refetch = CASSETTES[cassette]
     d = Driver(dc, fac, conc_seed=conc_seed, fetch_factory=refetch)
+    for k, v in dopts.items():
+        setattr(d, k, v)
     res = []
     for n_item, it in enumerate(items):
         beh = [graph.states[n] for n in it] if graph is not None and isinstance(it[0], int) else it
@@ -213,6 +217,7 @@ class RecorderCheck(object):
         self.scratch = tlc.Scratch()
         self.n_cfg = 0
         self.pool = None
+        self.driver_opts = {}
 
     def close(self):
         self.scratch.close()
@@ -312,7 +317,7 @@ class RecorderCheck(object):
         for cas in cassettes:
             for k in range(n_conc):
                 for ch in chunks(paths, chunk):
-                    tasks.append((name, ch, self.seed * 101 + k, cas, self.cats, self.nontrivial))
+                    tasks.append((name, ch, self.seed * 101 + k, cas, self.cats, self.nontrivial, self.driver_opts))
         ctx = mp.get_context('fork')
         nproc = min(tlc.NCPU, max(1, len(tasks)))
         with ctx.Pool(nproc) as pool:
@@ -352,6 +357,7 @@ class RecorderCheck(object):
                            'signature': self.signature(bad, r.get('summary')),
                            'mismatches': bad[:6]},
                           replay={'kind': 'recorder', 'consts': _consts_json(c), 'cassette': cassette,
+                                  'driver_opts': self.driver_opts,
                                   'conc_seed': conc_seed, 'behaviour': r['beh_json'],
                                   'summary': r.get('summary')})
 
@@ -368,13 +374,17 @@ def _consts_from_json(d):
     return c
 
 
-def replay_file(rep, body, violation_cats):
+def replay_file(rep, body, violation_cats, shadow=False):
     """Re-execute the behaviour of a replay file; returns True when the property holds on it."""
     from .recbind import Driver
     rp = body['replay']
     c = _consts_from_json(rp['consts'])
     fac, refetch = CASSETTES[rp['cassette']]
     d = Driver(driver_consts(c), fac, conc_seed=rp['conc_seed'], fetch_factory=refetch)
+    for k, v in (rp.get('driver_opts') or {}).items():
+        setattr(d, k, v)
+    if shadow:
+        d.shadow = True
     beh = [from_json(s) for s in rp['behaviour']]
     mm = d.run(beh)
     bad = [m for m in mm if m['cat'] in violation_cats]
